@@ -57,7 +57,7 @@ K_two   == {"level", "line"}
 C_one   == {T_ab}
 C_two   == {<<>>, T_ab}
 C_three == {<<>>, T_ab, T_long, T_pct}
-W_all   == {0, 3, 8}
+W_all   == {0, 1, 3, 8}
 W_two   == {0, 8}
 W_one   == {8}
 Fm_none == {}
